@@ -10,6 +10,7 @@ mod bio;
 mod chan_bundle;
 mod chan_hex;
 mod chan_now;
+mod chan_ops;
 mod chan_time;
 
 fn mode_of_build() -> &'static str {
@@ -43,6 +44,8 @@ fn run_line(line: &str) -> String {
         "TSFMT" => chan_time::tsfmt(args),
         "NOW" => chan_time::now(args),
         "SCHED" => chan_now::sched(args),
+        "VALIDATE" => chan_ops::validate(args),
+        "OPS" => chan_ops::ops(args),
         "DEC" => chan_bundle::dec(args),
         "ENC" => chan_bundle::enc(args),
         "CRCV" => chan_bundle::crcv(args),
